@@ -117,7 +117,7 @@ func must(err error) {
 
 func main() {
 	rep := kit.NewReport("C15", "exploration",
-		"every single site and every pair (thorough: triples over a reduced alphabet) of site addresses over scheme {none, http://, https://} x 20 host classes x port {none, 80, 443, 8080} x 9 tls lines (one or two tls lines per site), loaded through the real Casketfile path including the real tls parsing callback with certmagic storage pre-seeded; per-site Managed/Enabled flags compared with the statement's conjunction, redirect sites enumerated and queried with 4 URIs x 2 Host forms; several HTTPS sites of one host that differ in their path; distinct_nontrivial = outcome classes")
+		"every single site and every pair (thorough: triples over a reduced alphabet) of site addresses over scheme {none, http://, https://} x 20 host classes x port {none, 80, 443, 8080} x 10 site bodies (tls lines, one or two per site; a bind line), loaded through the real Casketfile path including the real tls parsing callback with certmagic storage pre-seeded; per-site Managed/Enabled flags compared with the statement's conjunction, redirect sites enumerated and queried with 5 request targets (one in absolute form) x 2 Host forms; a declared plain-HTTP site next to HTTPS sites with paths; several HTTPS sites of one host that differ in their path; distinct_nontrivial = outcome classes")
 	kit.Init()
 	kit.Log.Off.Store(true)
 	dir := kit.TempDir("c15")
@@ -143,6 +143,8 @@ func main() {
 	}
 	tlsLines := []tlsLine{
 		{name: "none"},
+		// no tls line, but the site binds a public address: whether the host qualifies does not depend on that
+		{name: "none+bind-public-address", line: "bind 203.0.113.5"},
 		{name: "off", line: "tls off", disablesManaged: true, off: true},
 		{name: "email", line: "tls a@b.c", enablesTLS: true},
 		{name: "self_signed", line: "tls self_signed", disablesManaged: true, enablesTLS: true},
@@ -321,8 +323,14 @@ func main() {
 			wantPort := mine.cfg.Addr.Port
 			for _, reqHost := range reqHosts {
 				for _, hostHdr := range []string{reqHost, net.JoinHostPort(strings.Trim(reqHost, "[]"), "80")} {
-					for _, uri := range []string{"/", "/a/b?x=1&y=2", "/%2F?", "//x"} {
-						rec, pv, err := kit.Serve(rs.srv, kit.Get("GET", uri, hostHdr))
+					for _, uri := range []string{"/", "/a/b?x=1&y=2", "/%2F?", "//x", "ABS/p/q?z=1"} {
+						target := uri
+						if strings.HasPrefix(uri, "ABS") {
+							// an absolute-form request target naming this host: the redirect keeps its path and query
+							uri = strings.TrimPrefix(uri, "ABS")
+							target = "http://" + hostHdr + uri
+						}
+						rec, pv, err := kit.Serve(rs.srv, kit.Get("GET", target, hostHdr))
 						if err != nil {
 							continue
 						}
@@ -389,6 +397,35 @@ func main() {
 	}
 	rep.Sample(map[string]interface{}{"casketfile": "example.com {\n\tstatus 204 /\n}\nhttp://example.com:8080 {\n\ttls off\n\tstatus 204 /\n}\n", "redirect_requests": []string{"GET / Host: example.com", "GET /a/b?x=1&y=2 Host: example.com:80"}})
 	// several HTTPS sites of one host that differ in their path (and none on the HTTP port): the host still gets its redirect
+	// a declared plain-HTTP site of the host next to an HTTPS site of the host with a path: no redirect site takes its place
+	for _, pair := range [][2]string{{"http://example.com", "https://example.com/app"}, {"http://example.com/", "https://example.com"}, {"http://example.com/docs", "https://example.com/app"}} {
+		for o := 0; o < 2; o++ {
+			blocks := []string{fmt.Sprintf("%s {\n\theader / X-Site plain\n\tstatus 204 /\n}\n", pair[0]), fmt.Sprintf("%s {\n\theader / X-Site secure\n\tstatus 204 /\n}\n", pair[1])}
+			cf := blocks[o] + blocks[1-o]
+			l, err := kit.Load(cf, filepath.Join(dir, "Casketfile"))
+			rep.Eval(1)
+			if err != nil {
+				rep.Class("declared-http-site-next-to-path-sites/refused")
+				continue
+			}
+			for _, srv := range l.Servers {
+				if _, p, _ := net.SplitHostPort(srv.Address()); p != "80" {
+					continue
+				}
+				for _, uri := range []string{"/", "/docs/x", "/app/x"} {
+					rec, pv, _ := kit.Serve(srv, kit.Get("GET", uri, "example.com"))
+					rep.Eval(1)
+					declaredPath := strings.TrimSuffix(strings.TrimPrefix(pair[0], "http://example.com"), "/")
+					inDeclared := declaredPath == "" || strings.HasPrefix(uri, declaredPath)
+					if pv != nil || (inDeclared && (rec.Status == 301 || rec.Snap.Get("X-Site") != "plain")) {
+						rep.Violation("C15/redirect-site-shadows-declared-http-site/path-sites", fmt.Sprintf("GET %s on port 80 with the declared site %s: status %d X-Site %q Location %q, want the declared site's answer", uri, pair[0], rec.Status, rec.Snap.Get("X-Site"), rec.Snap.Get("Location")), c15case{cf, pair[0], fmt.Sprintf("%d %s", rec.Status, rec.Snap.Get("Location")), "204 from the declared site"})
+					}
+				}
+			}
+			l.Close()
+			rep.Class("declared-http-site-next-to-path-sites")
+		}
+	}
 	for _, paths := range [][]string{{"/app", "/api"}, {"", "/api"}, {"/app", "/api", "/x"}} {
 		for _, port := range []string{"", ":443"} {
 			var b strings.Builder
